@@ -722,3 +722,76 @@ Proof.
     pose proof (call_roundtrip pload 3 (lenZ (v_alleles v)) cl Hc Hna (Hcalls _ Hcl)) as Hrt.
     destruct cl as [[a b] p]. exact Hrt.
 Qed.
+
+(* ---- subset(): every cell is the one its names denote ------------------------------ *)
+
+Lemma nth_pick {A} (d d' : A) idx l i : (i < length idx)%nat ->
+  nth i (pick d idx l) d' = nth (nth i idx O) l d.
+Proof.
+  intros H. unfold pick. rewrite (nth_indep _ d' (nth O l d)) by (rewrite map_length; exact H).
+  apply (map_nth (fun k => nth k l d) idx O i).
+Qed.
+
+Lemma positions_spec req have :
+  Forall2 (fun x k => index_of x have = Some k) (filter (fun x => memZ x have) req) (positions req have).
+Proof.
+  induction req as [|x r IH]; [constructor|]. cbn [positions filter].
+  destruct (index_of x have) as [i|] eqn:E.
+  - destruct (index_of_Some _ _ _ E) as [_ Hin]. rewrite (proj2 (memZ_In x have) Hin).
+    constructor; [exact E|exact IH].
+  - rewrite (index_of_None _ _ E). exact IH.
+Qed.
+
+Lemma Forall2_nth_pair {A B} (R : A -> B -> Prop) l1 l2 d1 d2 :
+  Forall2 R l1 l2 -> forall i, (i < length l2)%nat -> R (nth i l1 d1) (nth i l2 d2).
+Proof.
+  intros F. induction F as [|a b r s Hab F IH]; intros i Hi; cbn in Hi; [lia|].
+  destruct i as [|i]; cbn; [exact Hab|apply IH; lia].
+Qed.
+
+Lemma index_of_lt x l i : index_of x l = Some i -> (i < length l)%nat.
+Proof.
+  revert i. induction l as [|y r IH]; intros i H; cbn in H; [discriminate|].
+  destruct (x =? y); [inversion H; cbn; lia|].
+  destruct (index_of x r) as [j|]; [|discriminate]. cbn in H. inversion H; subst.
+  specialize (IH j eq_refl). cbn. lia.
+Qed.
+
+Lemma subset_cells g S' V' g' :
+  subset g (Some S') (Some V') = Ok g' -> length (g_rows g) = length (g_variants g) ->
+  forall i j, (i < length (g_variants g'))%nat -> (j < length (g_samples g'))%nat ->
+  exists pi pj,
+    index_of (v_id (nth i (g_variants g') dummy_variant)) (map v_id (g_variants g)) = Some pi
+    /\ index_of (nth j (g_samples g') 0) (g_samples g) = Some pj
+    /\ nth i (g_variants g') dummy_variant = nth pi (g_variants g) dummy_variant
+    /\ nth j (nth i (g_rows g') []) dummy_call = nth pj (nth pi (g_rows g) []) dummy_call.
+Proof.
+  unfold subset. intros H Hlen.
+  destruct (negb (nodupb (g_samples g))); [discriminate|].
+  destruct (negb (nodupb (map v_id (g_variants g)))); [discriminate|].
+  inversion H; subst; clear H. cbn [g_samples g_variants g_rows].
+  set (idxS := positions S' (g_samples g)). set (idxV := positions V' (map v_id (g_variants g))).
+  intros i j Hi Hj. unfold pick in Hi, Hj. rewrite map_length in Hi, Hj.
+  exists (nth i idxV O), (nth j idxS O).
+  pose proof (positions_spec V' (map v_id (g_variants g))) as FV.
+  pose proof (positions_spec S' (g_samples g)) as FS.
+  pose proof (Forall2_nth_pair _ _ _ 0 O FV i Hi) as Hpi. cbn beta in Hpi.
+  pose proof (Forall2_nth_pair _ _ _ 0 O FS j Hj) as Hpj. cbn beta in Hpj.
+  fold idxV in Hpi. fold idxS in Hpj.
+  assert (Evid : v_id (nth i (pick dummy_variant idxV (g_variants g)) dummy_variant)
+                 = nth i (filter (fun x => memZ x (map v_id (g_variants g))) V') 0).
+  { rewrite <- (pick_positions V' (map v_id (g_variants g))). fold idxV.
+    change (pick 0 idxV (map v_id (g_variants g)))
+      with (pick (v_id dummy_variant) idxV (map v_id (g_variants g))).
+    rewrite <- (pick_map v_id dummy_variant idxV (g_variants g)).
+    symmetry. exact (map_nth v_id (pick dummy_variant idxV (g_variants g)) dummy_variant i). }
+  assert (Esamp : nth j (pick 0 idxS (g_samples g)) 0 = nth j (filter (fun x => memZ x (g_samples g)) S') 0).
+  { unfold idxS. rewrite pick_positions. reflexivity. }
+  split; [rewrite Evid; exact Hpi|]. split; [rewrite Esamp; exact Hpj|].
+  split; [apply nth_pick; exact Hi|].
+  rewrite (nth_pick [] [] idxV _ i Hi).
+  assert (Hlt : (nth i idxV O < length (g_rows g))%nat).
+  { rewrite Hlen, <- (map_length v_id). eapply index_of_lt. exact Hpi. }
+  rewrite (nth_indep _ [] (pick dummy_call idxS [])) by (rewrite map_length; exact Hlt).
+  rewrite (map_nth (pick dummy_call idxS)). apply nth_pick. exact Hj.
+Qed.
